@@ -110,6 +110,12 @@ impl<'a, 'ast> Visit<'ast> for FnVisitor<'a> {
     fn visit_macro(&mut self, m: &'ast syn::Macro) {
         let name = m.path.to_token_stream().to_string().replace(' ', "");
         self.macros.push(json!({"name": name, "span": sp(self.li, m.span())}));
+        // `vec![e1, e2, ..]`: the arguments are ordinary expressions; index what is inside them too
+        if name == "vec" {
+            if let Ok(es) = m.parse_body_with(syn::punctuated::Punctuated::<syn::Expr, syn::Token![,]>::parse_terminated) {
+                for e in es.iter() { self.visit_expr(e); }
+            }
+        }
         visit::visit_macro(self, m);
     }
     fn visit_expr_binary(&mut self, b: &'ast syn::ExprBinary) {
